@@ -6,6 +6,9 @@ HERE = os.path.dirname(os.path.dirname(os.path.abspath(__file__)))
 TECH = "deterministic simulation with fault injection: seeded search over operation/fault histories against a reference model, ddmin-minimised replay files"
 
 CLAIMED = {
+ "C09": dict(section="5.4", level="exploration",
+   text="Seeded histories of apply calls on a pool of long-lived transforms (cached and uncached piecewise affine, thin-plate splines, both RBFs, the homogeneous family, chains containing a PWA, WithDims, an alignment re-targeted between calls, copies) with caller-owned buffers that are re-used, edited in place (relative 1e-12 .. 1e-3, i.e. below and above any memo tolerance), refilled under the same array object, or passed as equal values in another array; arrays and shapes; every batch size from 1 to beyond n incl. non-dividing ones; mixes of in-domain and out-of-domain points. Every call is compared with a freshly constructed transform of the same parameters applied to a copy of the current values (or both raise); for the PWA classes the failure mask must have exactly one entry per input point and equal a per-point reference for every batch size; inputs are never modified; BooleanImage.constrain_to_pointcloud batched = unbatched. Sampling, not proof.",
+   note="Trusted: a fresh transform as oracle (single-call purity of a fresh object is C02's business); the failure mask of a TransformChain that merely contains a PWA is not judged under batching (generic batching; only value equality / both-raise); points are kept a margin away from triangle edges."),
  "C08": dict(section="5.3", level="exploration",
    text="Seeded histories over a pool of long-lived alignment objects (translation, uniform scale, rotation with/without mirroring, similarity with rotation x mirroring, affine, thin-plate splines with both kernels and both singular-value floors incl. near-coincident sources, piecewise affine from PointCloud or TriMesh sources; 2D and 3D): accepted set_target calls (family member + noise, mirrored, arbitrary, exact), rejected targets (wrong n_points / n_dims) in between, copies that diverge, retargeted pseudoinverses, and noise operations (from_vector, apply, in-place composition, as_non_alignment). After every accepted set_target the object is compared with a freshly constructed alignment of the same class and options (map on probe points and source, h_matrix, target, aligned source, alignment error); rejected targets must raise and change nothing; every point set the caller ever passed and every other pool member must be unchanged after every step; GPA transforms must equal AlignmentSimilarity(source_i, gpa.target). Thorough additionally enumerates every class x option vector x 1..3 set_targets. Sampling, not proof.",
    note="Trusted: the alignment constructors themselves are the oracle for a fresh fit (that is what the property states); generators keep point sets in general position; the caller never edits a target after passing it."),
